@@ -29,6 +29,8 @@ man = {
     'hooks': {'guard': 'terohuttunen_proto_vulcan_verif', 'enable': 'no hooks are used: checks analyse /repo exactly as plain cargo builds it (cargo +nightly check with a rustc_private driver as RUSTC_WORKSPACE_WRAPPER)', 'baseline_off_cmd': 'cd /repo && cargo test --workspace --no-fail-fast --offline', 'source_commits': [], 'add_only': True},
     'engines': [
         {'name': 'pvfacts', 'path': 'engine/pvfacts', 'serves_properties': [c['property_id'] for c in checks], 'kind_free_text': 'rustc_private driver: dumps typed HIR trees with resolved callees, MIR CFGs (calls, drops, asserts), ADTs, impls as JSON facts; never runs the analysed code'},
+        {'name': 'pvtmpl', 'path': 'engine/pvtmpl', 'serves_properties': [c for c in ('C12', 'C13', 'C14', 'C15', 'C20') if any(x['property_id'] == c for x in checks)], 'kind_free_text': 'syn 2 syntax-tree extractor: every quote!/parse_quote! template of the macro crate as a token tree with its enclosing impl / match arm / if branch / let bindings; templates are never expanded or executed'},
+        {'name': 'witness', 'path': 'witness', 'serves_properties': [c for c in ('C05', 'C10', 'C15', 'C22') if any(x['property_id'] == c for x in checks)], 'kind_free_text': 'compile_fail,E0xxx doc-tests with compiling twins, built against /repo with cargo +nightly test --doc (type-level barriers; nothing is executed: compile_fail / no_run)'},
         {'name': 'rules', 'path': 'rules', 'serves_properties': [c['property_id'] for c in checks], 'kind_free_text': 'python3 stdlib: symbolic provenance terms over HIR, table matching, CFG/dominator/drop analyses over MIR'},
     ],
     'checks': checks,
